@@ -102,6 +102,33 @@ def run(ctx):
     common.setup_impl_path()
     leaf_mbr(ctx)
     hybridleaf.leaf_correspondence(ctx)
+    # requests that cannot be mastered must be refused at the call, not fail in write_fp
+    import pycdlib
+    for nefi in (0, 1):
+        for hy in ({'efi': True}, {'mac': True}):
+            if nefi == 1 and 'efi' in hy:
+                continue
+            iso = pycdlib.PyCdlib()
+            iso.new(interchange_level=3)
+            iso.add_fp(io.BytesIO(ISOLINUX), len(ISOLINUX), '/ISOLINUX.BIN;1')
+            iso.add_eltorito('/ISOLINUX.BIN;1', '/BOOT.CAT;1', boot_load_size=4)
+            if nefi:
+                iso.add_fp(io.BytesIO(b'E' * 4096), 4096, '/EFI.IMG;1')
+                iso.add_eltorito('/EFI.IMG;1', efi=True)
+            ctx.case(('hybrid-unsatisfiable', nefi, repr(hy)), True)
+            try:
+                iso.add_isohybrid(**hy)
+            except pycdlib.pycdlibexception.PyCdlibInvalidInput:
+                iso.close()
+                continue
+            try:
+                sysimg.master(iso)
+                what = 'and an image is written whose GPT describes nothing'
+            except Exception as e:
+                what = 'and write_fp then fails with %s: %s' % (type(e).__name__, str(e)[:60])
+            ctx.violation('c12:unsatisfiable-request-accepted', 'C12: add_isohybrid(%s) with %d El Torito EFI entries is accepted %s'
+                          % (hy, nefi, what), {'hybrid': hy, 'efi_entries': nefi})
+            iso.close()
     rng = ctx.rng
     quick = ctx.tier == 'quick'
     for i in range(60 if quick else 800):
